@@ -2,6 +2,7 @@ package sym
 
 import (
 	"fmt"
+	"regexp"
 	"sort"
 	"strings"
 	"time"
@@ -48,19 +49,22 @@ type Explorer struct {
 	Cross   []*Solver // cross-check solvers (optional)
 
 	// knobs
-	MaxLoop          int
-	MaxSteps         int
-	MaxPaths         int
-	IfConvert        bool
-	UnboundedChans   bool
-	MapPerms         int // permute map iteration for maps up to this many entries
-	PanicIsViolation bool
-	SprintfMax       int
-	TickerTicks      int
-	PermuteIn        map[string]bool
-	SymIndex         bool
-	Deadlocks        map[string]int
-	Deadline         time.Time
+	MaxLoop             int
+	MaxSteps            int
+	MaxPaths            int
+	IfConvert           bool
+	UnboundedChans      bool
+	MapPerms            int // permute map iteration for maps up to this many entries
+	PanicIsViolation    bool
+	SprintfMax          int
+	TickerTicks         int
+	SchedExplore        bool
+	MaxSwitches         int
+	DeadlockIsViolation bool
+	PermuteIn           map[string]bool
+	SymIndex            bool
+	Deadlocks           map[string]int
+	Deadline            time.Time
 
 	// per-path state
 	B         *Builder
@@ -164,9 +168,22 @@ func (x *Explorer) runOne(fn *ssa.Function) {
 	x.concVarN = 0
 	ex := &Exec{P: x.Prog, B: x.B, X: x, globals: map[*ssa.Global]*Object{}, ghost: map[string]interface{}{}}
 	x.curExec = ex
+	ex.initSched()
+	defer ex.killAll()
 	defer func() {
 		if r := recover(); r != nil {
 			switch p := r.(type) {
+			case *deadlockAbort:
+				x.Deadlocks[p.Desc]++
+				if x.DeadlockIsViolation {
+					x.deadlockViolation(ex, p)
+					x.Completed++
+				} else {
+					x.Aborted["deadlock"]++
+					if _, ok := x.AbortSamples["deadlock:"+p.Desc]; !ok && len(x.AbortSamples) < 40 {
+						x.AbortSamples["deadlock:"+p.Desc] = x.describeInputs()
+					}
+				}
 			case *abortPath:
 				x.Aborted[p.Kind]++
 				if _, ok := x.AbortSamples[p.Kind+":"+p.Reason]; !ok && len(x.AbortSamples) < 40 {
@@ -182,7 +199,7 @@ func (x *Explorer) runOne(fn *ssa.Function) {
 	}()
 	ex.runInits()
 	ex.call(nil, &Func{Fn: fn}, nil, nil)
-	ex.runPending()
+	ex.settle()
 	x.Completed++
 	for k := range x.reached {
 		x.ReachedAll[k]++
@@ -591,6 +608,23 @@ func (x *Explorer) Assert(ex *Exec, c *Term, label string, fr *frame) {
 		panic(&abortPath{Kind: "assert-stop", Reason: "assertion fails on every input of this path: " + label})
 	}
 	x.addConstraint(c)
+}
+
+func (x *Explorer) deadlockViolation(ex *Exec, p *deadlockAbort) {
+	r, model := x.Solver.Check(x.pc, x.allInputTerms())
+	if r != Sat {
+		x.Unknowns++
+		x.Aborted["unknown-deadlock"]++
+		return
+	}
+	if model == nil {
+		model = map[int]uint64{}
+	}
+	// signature: the set of blocked operations without goroutine numbers
+	sig := regexp.MustCompile(`g\d+\[`).ReplaceAllString(p.Desc, "g[")
+	v := &Violation{Harness: x.Harness, Label: "deadlock", Where: "scheduler", Inputs: x.modelInputs(model), Path: x.Paths, Detail: p.Desc}
+	v.Signature = x.Harness + "|deadlock:" + sig
+	x.Violations = append(x.Violations, v)
 }
 
 func (x *Explorer) escapedPanic(ex *Exec, p *goPanic, ctx string) {
